@@ -21,6 +21,8 @@ type ctx struct {
 	Thor   bool
 	Replay string
 	R      *vc.Report
+	// RS is set by --replay: the witnessed case to run again (and nothing else).
+	RS *replaySpec
 	// AlsoProps: violations an engine tags with one of these properties count
 	// as violations of Prop in this run (C20 reuses the dataflow oracles).
 	AlsoProps []string
@@ -65,11 +67,24 @@ func main() {
 		usage()
 	}
 	c := &ctx{Prop: prop, Tier: *tier, Seed: vc.Seed(), Thor: *tier == "thorough", Replay: *replay}
+	if *replay != "" {
+		c.RS = loadReplay(*replay)
+		c.Seed = c.RS.Seed
+		// a replay never touches the committed evidence
+		vc.OutDir = vc.WorkDir("replay-out")
+	}
 	c.R = vc.NewReport(prop, *tier)
 	code := 0
 	func() {
 		defer vc.Cleanup()
 		fn(c)
+		if c.RS != nil {
+			n := c.R.KeepOnlyCase(c.RS.Case)
+			if n == 0 {
+				fmt.Printf("NOT-REPRODUCED property=%s case=%s (the witnessed case was run again %s and held; scheduling-dependent violations may need several replays)\n", prop, c.RS.Case, c.RS.how)
+			}
+			vc.OutDir = vc.VerifDir // witnesses of a reproduced violation go where the others are
+		}
 		code = c.R.Finish()
 	}()
 	os.Exit(code)
